@@ -36,7 +36,15 @@ fn read_mat(t: &mut Toks) -> R<M> {
     for x in v.iter_mut() {
         *x = t.num()?;
     }
-    Ok(M::new(v[0], v[1], v[2], v[3], v[4], v[5]))
+    // the three public ways to build a matrix from its six entries, in rotation (decided by the entries themselves, so
+    // that a case always takes the same one): `new`, `From<[T; 6]>`, `From<(T, T, T, T, T, T)>` — all documented as
+    // `[a, b, xoff, d, e, yoff]`
+    let pick = v.iter().fold(0u64, |h, x| h.wrapping_mul(31).wrapping_add(x.to_bits())) % 3;
+    Ok(match pick {
+        0 => M::new(v[0], v[1], v[2], v[3], v[4], v[5]),
+        1 => M::from([v[0], v[1], v[2], v[3], v[4], v[5]]),
+        _ => M::from((v[0], v[1], v[2], v[3], v[4], v[5])),
+    })
 }
 fn b(x: bool) -> &'static str {
     if x { "true" } else { "false" }
@@ -713,7 +721,7 @@ fn eval_int(t: &mut Toks) -> R<String> {
     }
     macro_rules! go {
         ($ty:ty) => {{
-            let m1 = AffineTransform::<$ty>::new(v[0] as $ty, v[1] as $ty, v[2] as $ty, v[3] as $ty, v[4] as $ty, v[5] as $ty);
+            let m1 = AffineTransform::<$ty>::from([v[0] as $ty, v[1] as $ty, v[2] as $ty, v[3] as $ty, v[4] as $ty, v[5] as $ty]);
             let m2 = AffineTransform::<$ty>::new(v[6] as $ty, v[7] as $ty, v[8] as $ty, v[9] as $ty, v[10] as $ty, v[11] as $ty);
             let p = Coord { x: v[12] as $ty, y: v[13] as $ty };
             let cm = m1.compose(&m2);
